@@ -515,7 +515,6 @@ static size_t w_canon(uint8_t *buf, size_t cap)
 {
     size_t o = 0; int i;
     for (i = 0; i < g_nbe; ++i) o += ctr_image(g_c, &W.obj[i], buf + o, cap - o);
-    out_digest("ctr-context-images", buf, o);
     if (o + 256 > cap) engine_error("canon overflow");
     /* model state and budgets */
     memcpy(buf + o, &W.phase, (size_t)((uint8_t *)&W.pos - (uint8_t *)&W.phase)); o += (size_t)((uint8_t *)&W.pos - (uint8_t *)&W.phase);
